@@ -26,8 +26,10 @@ class World:
         self.lines.append(line)
         self.impl.append(out)
 
-    def setup(self):
+    def setup(self, crowded=None):
         g, rng = self.g, self.rng
+        if crowded is None:
+            crowded = rng.random() < 0.4
         for i in range(N_SEC):
             s = g.Section(name="s%d" % i, module=self.mods[i % 2])
             self.secs.append(s)
@@ -44,6 +46,17 @@ class World:
             b = (g.CodeBlock if code else g.DataBlock)(offset=o, size=z)
             self.blks.append(b)
             self.emit("blk %d %s %d %d" % (i, "code" if code else "data", o, z))
+        if crowded:
+            # most blocks in one addressed interval of section 0, so that the
+            # incremental branch of the lazy index (fewer pending events than
+            # members) is the common one
+            self.apply(("bi-parent", 0, 0))
+            if self.bis[0].address is None:
+                self.apply(("biaddr", 0, rng.choice([0, 2, 4])))
+            for i in range(N_BLK - 2):
+                self.apply(("blk-add", i, 0))
+            for i in (1, 2):
+                self.apply(("bi-add", i, 0))
 
     # ---- abstract edits; each returns the driver line(s) it corresponds to
     def apply(self, op):
@@ -94,6 +107,28 @@ class World:
             self.secs[op[2]].byte_intervals.discard(x)
             if member:
                 self.emit("bimove %d - 1" % op[1])
+        elif k == "blk-toggle":       # change an attribute and restore it
+            b = self.blks[op[1]]
+            if op[2] == "offset":
+                old = b.offset
+                b.offset = op[3]
+                self.emit("blkset %d %d %d" % (op[1], b.offset, b.size))
+                b.offset = old
+            else:
+                old = b.size
+                b.size = op[3]
+                self.emit("blkset %d %d %d" % (op[1], b.offset, b.size))
+                b.size = old
+            self.emit("blkset %d %d %d" % (op[1], b.offset, b.size))
+        elif k == "bi-toggle":
+            x = self.bis[op[1]]
+            old = x.address
+            x.address = op[2]
+            self.emit("biset %d %s %d" % (op[1], "-" if op[2] is None
+                                          else op[2], x.size))
+            x.address = old
+            self.emit("biset %d %s %d" % (op[1], "-" if old is None else old,
+                                          x.size))
         elif k == "sec-move":         # changes module-scope composition only
             self.secs[op[1]].module = self.mods[op[2]]
         else:
@@ -102,7 +137,12 @@ class World:
     def gen_edit(self):
         rng = self.rng
         r = rng.random()
-        if r < 0.2:
+        if r < 0.08:
+            return ("blk-toggle", rng.randrange(N_BLK),
+                    rng.choice(["offset", "size"]), rng.randrange(0, 8))
+        if r < 0.12:
+            return ("bi-toggle", rng.randrange(N_BI), rng.choice(ADDRS))
+        if r < 0.24:
             return ("blkoff", rng.randrange(N_BLK), rng.randrange(0, 8))
         if r < 0.38:
             return ("blksize", rng.randrange(N_BLK), rng.randrange(0, 6))
